@@ -11,6 +11,16 @@ class Violation(AssertionError):
     """The property's oracle failed on the real code."""
 
 
+class Reached(Exception):
+    """Reachability twin: the labelled point of the harness was reached."""
+
+
+def reach(params, label):
+    """Marks a point that the vacuity guard must be able to reach (DESIGN.md rule 1.4)."""
+    if params.get("reach") == label:
+        raise Reached(label)
+
+
 def assume(cond, why=""):
     if not cond:
         raise Skip(why)
